@@ -387,3 +387,61 @@ func VfDeleteBucketRace() {
 }
 
 func vfOneByte() *vfBodyReader { return &vfBodyReader{data: []byte("N")} }
+
+// VfDeleteBucketEmptiness: C16 – DeleteBucket succeeds only on a bucket without objects or versions: every combination of
+// bucket content (nothing / only the .sgwtmp bookkeeping directory / an object / a nested object) and, with a versioning
+// directory configured, of the bucket's version store (absent / empty / only .sgwtmp / holding a version). After a refusal
+// the content is untouched; after success the bucket and its version store are gone.
+func VfDeleteBucketEmptiness() {
+	vfWorld()
+	cfg := vfConfig{versioning: zzvf.Choice("versioning_dir", 2) == 1}
+	p := vfNewPosix(cfg)
+	zzvf.Assert(p.CreateBucket(vfCtxOf("alice"), &s3.CreateBucketInput{Bucket: vfStr("bkt")}, vfACL("alice")) == nil, "setup-create-bucket")
+	content := zzvf.Choice("bucket_content", 4)
+	hasObjects := false
+	switch content {
+	case 1:
+		zzvfos.MkdirAll("bkt/"+metaTmpDir, 0o755)
+	case 2:
+		zzvfos.WriteFile("bkt/obj", []byte("D"), 0o644)
+		hasObjects = true
+	case 3:
+		zzvfos.MkdirAll("bkt/"+metaTmpDir, 0o755)
+		zzvfos.MkdirAll("bkt/dir", 0o755)
+		zzvfos.WriteFile("bkt/dir/obj", []byte("D"), 0o644)
+		hasObjects = true
+	}
+	hasVersions := false
+	if cfg.versioning {
+		switch zzvf.Choice("version_store", 4) {
+		case 1:
+			zzvfos.MkdirAll("/vers/bkt", 0o755)
+		case 2:
+			zzvfos.MkdirAll("/vers/bkt/"+metaTmpDir, 0o755)
+		case 3:
+			zzvfos.MkdirAll("/vers/bkt/"+metaTmpDir, 0o755)
+			zzvfos.MkdirAll("/vers/bkt/k1", 0o755)
+			zzvfos.WriteFile("/vers/bkt/k1/v1", []byte("V"), 0o644)
+			hasVersions = true
+		}
+	}
+	var before, after []vfSnapEntry
+	vfSnapshot("bkt", zzvfos.M.Cwd.Kids["bkt"], &before)
+	err := p.DeleteBucket(context.Background(), "bkt")
+	zzvf.Reach("delete-returned")
+	if hasObjects || hasVersions {
+		zzvf.Assert(err != nil, "delete-of-non-empty-bucket-fails")
+	} else {
+		zzvf.Assert(err == nil, "delete-of-empty-bucket-succeeds")
+	}
+	n := zzvfos.M.Cwd.Kids["bkt"]
+	if err != nil {
+		zzvf.Assert(n != nil, "refused-delete-keeps-the-bucket")
+		if n != nil {
+			vfSnapshot("bkt", n, &after)
+			zzvf.Assert(vfSnapEqual(before, after), "refused-delete-leaves-the-content-untouched")
+		}
+	} else {
+		zzvf.Assert(n == nil, "deleted-bucket-is-gone")
+	}
+}
